@@ -37,6 +37,12 @@ func (c *Ctx) genHistory(n int, uris []string) []POp {
 		d := st[u]
 		txt := bufferContents[c.R.Intn(len(bufferContents))]
 		switch k := c.R.Intn(10); {
+		case !d.open && c.R.Intn(5) == 0:
+			// a save notification (with text) for a document that is not open: closed before, or never opened
+			if d.text == "" {
+				d.text = txt
+			}
+			ops = append(ops, POp{Op: "save", URI: u, Text: d.text})
 		case d.open && strings.HasSuffix(u, ".goht") && c.R.Intn(3) == 0:
 			ops = append(ops, c.probe(u, d.text))
 		case !d.open:
@@ -105,8 +111,8 @@ func (c *Ctx) exhaustiveHistories(n int, uris []string, contents []string) [][]P
 						ops = append(ops, POp{Op: "change", URI: uris[m.u], Text: d.text, Version: d.version})
 					}
 				case "save":
-					if !d.open {
-						ok = false
+					if !d.open && d.text == "" {
+						ok = false // nothing was ever written to this document
 					}
 					ops = append(ops, POp{Op: "save", URI: uris[m.u], Text: d.text})
 				case "close":
@@ -247,8 +253,14 @@ func c08(c *Ctx) {
 						dd.open = false
 					}
 				case "didSave":
-					if t := kv(ev.F, "text"); t != "-" && string(unhx(t)) != string(want.Text) {
+					t := kv(ev.F, "text")
+					switch {
+					case t == "-":
+					case d.open && string(unhx(t)) != string(want.Text):
 						bad("save-payload", fmt.Sprintf("didSave forwards a text payload that is not the generated code: %q", clip(string(unhx(t)), 60)), oi)
+					case !d.open && (strings.Contains(string(unhx(t)), "@goht") || (op.Text != "" && string(unhx(t)) == op.Text)):
+						// no buffer is open, so there is no "current" code; but template text must never go downstream
+						bad("save-payload-closed", fmt.Sprintf("didSave for a document that is not open forwards template text downstream: %q", clip(string(unhx(t)), 60)), oi)
 					}
 				}
 			}
